@@ -76,6 +76,8 @@ pub struct Gs1State {
     pub admin_email: Option<String>,
     /// (key, value): key is "AdminName" or "admin"
     pub admin_name: Option<(String, String)>,
+    /// an `admin` variable sent in addition to `AdminName` (then AdminName is decoded and admin is just another variable)
+    pub admin_also: Option<String>,
     pub tournament: Option<(bool, String)>,
     pub extras: Vec<(String, String)>,
     pub players: Vec<P1>,
@@ -98,6 +100,7 @@ impl Gs1State {
             maptitle: rng.bool().then(|| rng.text(20, GS_FORBID)),
             admin_email: rng.bool().then(|| rng.text(20, GS_FORBID)),
             admin_name: rng.bool().then(|| ((if rng.bool() { "AdminName" } else { "admin" }).to_string(), rng.text(16, GS_FORBID))),
+            admin_also: None,
             tournament: rng.bool().then(|| (tour, bool_text(rng, tour))).filter(|(_, t)| t != "1" && t != "0"),
             extras: extras(rng, n_extras, GS_FORBID),
             players: (0 .. n_players)
@@ -130,6 +133,14 @@ impl Gs1State {
                 .collect(),
             query_id: rng.below(100_000) as u32,
         }
+        .with_admin_also(rng)
+    }
+
+    fn with_admin_also(mut self, rng: &mut Rng) -> Self {
+        if matches!(&self.admin_name, Some((k, _)) if k == "AdminName") && rng.chance(1, 4) {
+            self.admin_also = Some(rng.text(12, GS_FORBID));
+        }
+        self
     }
 
     pub fn server_pairs(&self) -> Vec<(String, String)> {
@@ -152,6 +163,9 @@ impl Gs1State {
         }
         if let Some((k, v)) = &self.admin_name {
             kv.push((k.clone(), v.clone()));
+        }
+        if let Some(v) = &self.admin_also {
+            kv.push(("admin".into(), v.clone()));
         }
         if let Some((_, t)) = &self.tournament {
             kv.push(("tournament".into(), t.clone()));
@@ -247,7 +261,10 @@ impl Gs1State {
     }
 
     pub fn expected(&self) -> one::Response {
-        let consumed = ["hostname", "mapname", "maptitle", "AdminEMail", "AdminName", "admin", "password", "gametype", "gamever", "maxplayers", "minplayers", "tournament"];
+        let mut consumed = vec!["hostname", "mapname", "maptitle", "AdminEMail", "AdminName", "password", "gametype", "gamever", "maxplayers", "minplayers", "tournament"];
+        if self.admin_also.is_none() {
+            consumed.push("admin");
+        }
         one::Response {
             name: self.hostname.clone(),
             map: self.mapname.clone(),
